@@ -1,5 +1,5 @@
 """C20 — tables with a header and no data rows are handled by every operator."""
-import itertools, operator
+import os, itertools, operator
 from collections import OrderedDict
 from .. import lean, proto, gen, util
 
@@ -240,6 +240,53 @@ def run(ctx):
                     ctx.spec_fail('%s|wrong|all-header-only' % name,
                                   '%s on a header-only table: expected its usual header and no data rows' % name,
                                   dict(case, with_rows=ref))
+    # ---- the header shape with no field at all (etl.empty(), fromdicts([]), fromcolumns([]), a blank csv): every operator that
+    # needs no named field must take it
+    Z = lambda: [()]
+    devnull = open(os.devnull, 'w')
+    zero_ops = [
+        ('sort', 1, lambda a: etl.sort(a)), ('sort(reverse)', 1, lambda a: etl.sort(a, reverse=True)), ('sort(buffersize=1)', 1, lambda a: etl.sort(a, buffersize=1)),
+        ('distinct', 1, lambda a: etl.distinct(a)), ('unique', 1, lambda a: etl.unique(a)), ('duplicates', 1, lambda a: etl.duplicates(a)),
+        ('conflicts?', 0, None), ('complement', 2, lambda a, b: etl.complement(a, b)), ('intersection', 2, lambda a, b: etl.intersection(a, b)),
+        ('diff[0]', 2, lambda a, b: etl.diff(a, b)[0]), ('diff[1]', 2, lambda a, b: etl.diff(a, b)[1]),
+        ('recordcomplement', 2, lambda a, b: etl.recordcomplement(a, b)), ('hashcomplement', 2, lambda a, b: etl.hashcomplement(a, b)),
+        ('hashintersection', 2, lambda a, b: etl.hashintersection(a, b)), ('mergesort', 2, lambda a, b: etl.mergesort(a, b)),
+        ('cat', 2, lambda a, b: etl.cat(a, b)), ('stack', 2, lambda a, b: etl.stack(a, b)), ('annex', 2, lambda a, b: etl.annex(a, b)),
+        ('crossjoin', 2, lambda a, b: etl.crossjoin(a, b)),
+        ('select', 1, lambda a: etl.select(a, lambda r: True)), ('select(expression)', 1, lambda a: etl.select(a, 'True')),
+        ('select(complement)', 1, lambda a: etl.select(a, lambda r: True, complement=True)),
+        ('rowlenselect', 1, lambda a: etl.rowlenselect(a, 0)), ('selectusingcontext', 1, lambda a: etl.selectusingcontext(a, lambda p, c, n: True)),
+        ('biselect[0]', 1, lambda a: etl.biselect(a, lambda r: True)[0]), ('biselect[1]', 1, lambda a: etl.biselect(a, lambda r: True)[1]),
+        ('head', 1, lambda a: etl.head(a)), ('tail', 1, lambda a: etl.tail(a)), ('rowslice', 1, lambda a: etl.rowslice(a, 1)), ('skip', 1, lambda a: etl.skip(a, 0)),
+        ('addrownumbers', 1, lambda a: etl.addrownumbers(a)), ('addfield', 1, lambda a: etl.addfield(a, 'x', 1)), ('addcolumn', 1, lambda a: etl.addcolumn(a, 'x', [])),
+        ('addfieldusingcontext', 1, lambda a: etl.addfieldusingcontext(a, 'x', lambda p, c, n: 1)),
+        ('filldown', 1, lambda a: etl.filldown(a)), ('fillright', 1, lambda a: etl.fillright(a)), ('fillleft', 1, lambda a: etl.fillleft(a)),
+        ('convertall', 1, lambda a: etl.convertall(a, str)), ('replaceall', 1, lambda a: etl.replaceall(a, 1, 2)),
+        ('rowmap', 1, lambda a: etl.rowmap(a, lambda r: r, header=[])), ('rowmapmany', 1, lambda a: etl.rowmapmany(a, lambda r: [r], header=[])),
+        ('fieldmap', 1, lambda a: etl.fieldmap(a, {})), ('cut()', 1, lambda a: etl.cut(a)), ('cutout()', 1, lambda a: etl.cutout(a)),
+        ('prefixheader', 1, lambda a: etl.prefixheader(a, 'p')), ('suffixheader', 1, lambda a: etl.suffixheader(a, 's')), ('sortheader', 1, lambda a: etl.sortheader(a)),
+        ('setheader', 1, lambda a: etl.setheader(a, [])), ('extendheader', 1, lambda a: etl.extendheader(a, ['x'])),
+        ('progress', 1, lambda a: etl.progress(a, out=devnull)), ('wrap', 1, lambda a: etl.wrap(a)), ('cache', 1, lambda a: etl.wrap(a).cache()),
+        ('aggregate(None, len)', 1, lambda a: etl.aggregate(a, None, len)), ('aggregate(None, list)', 1, lambda a: etl.aggregate(a, None, list)),
+        ('nrows', 1, lambda a: [[etl.nrows(a)]]), ('issorted', 1, lambda a: [[etl.issorted(a)]]), ('isunique?', 0, None),
+        ('teecsv', 1, lambda a: etl.teecsv(a, etl.MemorySource())), ('teetsv', 1, lambda a: etl.teetsv(a, etl.MemorySource())),
+        ('teepickle', 1, lambda a: etl.teepickle(a, etl.MemorySource())),
+    ]
+    SINGLE_ROW = {'aggregate(None, len)', 'aggregate(None, list)', 'nrows', 'issorted'}
+    for name, arity, f in zero_ops:
+        if f is None:
+            continue
+        out = util.run_show(lambda: f(*[Z() for _ in range(arity)]))
+        ctx.case((name, 'zero-field-header'))
+        ctx.count('zero-field-header')
+        case = {'op': name, 'header': '()', 'real': out}
+        if ' ERR ' in out or out.startswith('TB0 ERR'):
+            ctx.spec_fail('%s|raises|zero-field-header' % name, '%s raises on a header-only table whose header has no fields' % name, case)
+        elif out.startswith('TB') and name not in SINGLE_ROW:
+            t = proto.parse_tables(out)[0]
+            if len(t) != 1:
+                ctx.spec_fail('%s|wrong|zero-field-header' % name, '%s on a header-only table without fields: expected a header and no data rows' % name, case)
+    devnull.close()
     pub = set()
     for n in dir(etl):
         f = getattr(etl, n)
